@@ -55,7 +55,7 @@ def gen(tier, seed):
         # generic control points: removal of existing knots
         for y in inner[:2]:
             cnt = U.count(y)
-            for tol in ["default", fs(F(1000)), "none" if p >= 1 else fs(F(50))]:
+            for tol in ["default", fs(F(1000)), "none" if p >= 1 else fs(F(50)), "adaptive_hi", "adaptive_lo"]:
                 if tier == "quick" and rnd.random() < 0.5:
                     continue
                 cases.append(dict(base, k="generic", nodes=fsl([y] * rnd.randint(1, cnt)), tol=tol))
@@ -81,13 +81,26 @@ def impl(case):
         curve.knot_insert(nodes)
     before = curve_state(curve)
     tol = case["tol"]
+    tol_used = None
+    if tol in ("adaptive_hi", "adaptive_lo"):
+        # a tolerance just above / just below the implementation's own error estimate for this removal
+        from fractions import Fraction
+        try:
+            newkv = curve.knotvector - tuple(nodes)
+            tmp = Curve(newkv)
+            est = tmp.fit_curve(curve, newkv.knots if newkv.degree != 0 else None)
+            est = Fraction(est)
+        except Exception:  # noqa: BLE001
+            est = Fraction(0)
+        tol = "default" if est == 0 else fs(est * (Fraction(11, 10) if tol == "adaptive_hi" else Fraction(9, 10)))
+        tol_used = tol
     if tol == "default":
         r = capture(lambda: curve.knot_remove(nodes) and None)
     elif tol == "none":
         r = capture(lambda: curve.knot_remove(nodes, None) and None)
     else:
         r = capture(lambda: curve.knot_remove(nodes, num(tol)) and None)
-    return {"orig": orig, "before": before, "r": r, "after": curve_state(curve)}
+    return {"orig": orig, "before": before, "r": r, "after": curve_state(curve), "tol_used": tol_used}
 
 
 def cocurve(s):
@@ -101,13 +114,13 @@ def ctol(t):
 
 def emit(case, out):
     before = out["before"] if not out.get("_floats") else dict(out["before"], U=[])
-    return ctuple(copt(out["orig"], cocurve), cocurve(before), cql(case["nodes"]), ctol(case["tol"]),
+    return ctuple(copt(out["orig"], cocurve), cocurve(before), cql(case["nodes"]), ctol(out.get("tol_used") or case["tol"]),
                   cres(out["r"], lambda _: "tt"), cocurve(out["after"]))
 
 
 def describe(case):
     return {"stream": case["k"], "degree": case["p"], "kind": case["kind"], "n_interior": len(case["mults"]),
-            "tol": case["tol"] if case["tol"] in ("default", "none") else "given", "rational": case["W"] is not None}
+            "tol": case["tol"] if case["tol"] in ("default", "none", "adaptive_hi", "adaptive_lo") else "given", "rational": case["W"] is not None}
 
 
 def nontrivial(case):
